@@ -7,6 +7,7 @@ import (
 	"path/filepath"
 	"sort"
 	"strings"
+	"sync/atomic"
 	"time"
 )
 
@@ -55,6 +56,15 @@ func unitsForProp(g *Gen, prop string) []propUnit {
 				pu.kinds = nil
 			} else if pu.kinds != nil {
 				pu.kinds[kind] = true
+			}
+		}
+		if pu == nil {
+			// lock discipline (C11) and panic freedom (C12) are checked on every unit under contract
+			switch prop {
+			case "C11":
+				pu = &propUnit{ct: ct, kinds: map[string]bool{"lock": true}}
+			case "C12":
+				pu = &propUnit{ct: ct, kinds: map[string]bool{"safety": true}}
 			}
 		}
 		if pu != nil {
@@ -355,6 +365,7 @@ func runProperty(g *Gen, prop, tier, out string, cfg SolverCfg, t0 time.Time) in
 		"solve_wall_s":             solveS,
 		"vacuity":                  map[string]any{"cover_checks": covers, "satisfiable": coversOK},
 		"known_findings_matched":   knownHits,
+		"solver_cache_hits":        atomic.LoadInt64(&cacheHits),
 		"baseline_obligations":     len(baseline),
 		"samples":                  samples,
 		"obligation_results":       reports,
